@@ -1,86 +1,809 @@
-//! probe stage (to be replaced by the full harness)
-use domain::base::name::ParsedName;
+//! C19: the new-API codec (domain::new::base) and the established codec
+//! (domain::base) agree on the wire format.
+//!
+//! (1) differential parsing of names / questions / records / messages,
+//! (2) T2: the new name parsers, the old name parser and the known-class
+//!     classifier against the extracted Coq model,
+//! (3) build scripts on both builders, each output read by both readers.
+use domain::base::iana::{Class, Rtype};
+use domain::base::message_builder::{HashCompressor, MessageBuilder as OldBuilder, StaticCompressor, TreeCompressor};
+use domain::base::name::{Name as OldName, ParsedName};
+use domain::base::record::ParsedRecord;
+use domain::base::{Message as OldMessage, Question as OldQuestion, Ttl};
 use domain::dep::octseq::Parser;
-use domain::new::base::build::{AsBytes, BuildInMessage, MessageBuilder, NameCompressor};
+use domain::new::base::build::{AsBytes, MessageBuilder, NameCompressor};
 use domain::new::base::name::{Name, NameBuf, RevNameBuf};
-use domain::new::base::parse::SplitMessageBytes;
+use domain::new::base::parse::{MessageParser, ParseMessageBytes, SplitMessageBytes};
 use domain::new::base::wire::{ParseBytes, U16};
-use domain::new::base::{HeaderFlags, QClass, QType, Question};
+use domain::new::base::{HeaderFlags, Message, MessageItem, QClass, QType, Question, RClass, RType, Record, UnparsedRecordData, TTL};
+use domain::new::rdata::{CName, Mx, Ns, RecordData, A};
 use dv_harness::*;
 
-fn old_name(msg: &[u8], pos: usize) -> Result<(Vec<Vec<u8>>, usize), String> {
-    let mut parser = Parser::from_ref(msg);
-    parser.seek(pos).map_err(|e| format!("{}", e))?;
-    let n = ParsedName::parse(&mut parser).map_err(|e| format!("{}", e))?;
-    let labels: Vec<Vec<u8>> = n.iter().map(|l| l.as_slice().to_vec()).collect();
-    Ok((labels, parser.pos()))
+// ------------------------------------------------------------ observations
+
+#[derive(Clone, PartialEq, Debug)]
+enum Obs { Ok(Vec<u8>, usize), Err, Panic }
+
+impl Obs {
+    fn show(&self) -> String {
+        match self { Obs::Ok(w, e) => format!("Ok {} {}", hex(w), e), Obs::Err => "Err".into(), Obs::Panic => "Panic".into() }
+    }
+    fn is_ok(&self) -> bool { matches!(self, Obs::Ok(..)) }
 }
 
-fn new_name(msg: &[u8], pos: usize) -> Result<(Vec<Vec<u8>>, usize), String> {
-    let (n, end) = NameBuf::split_message_bytes(&msg[12..], pos - 12).map_err(|_| "err".to_string())?;
-    let labels: Vec<Vec<u8>> = n.labels().map(|l| l.as_bytes().to_vec()).collect();
-    Ok((labels, end + 12))
+fn flat<T>(r: Result<Result<T, ()>, String>) -> Result<T, bool> { match r { Ok(Ok(v)) => Ok(v), Ok(Err(())) => Err(false), Err(_) => Err(true) } }
+fn obs(r: Result<Result<(Vec<u8>, usize), ()>, String>) -> Obs {
+    match flat(r) { Ok((w, e)) => Obs::Ok(w, e), Err(false) => Obs::Err, Err(true) => Obs::Panic }
 }
 
-fn wire(labels: &[&[u8]]) -> Vec<u8> {
+fn old_wire<O: AsRef<[u8]>>(n: &ParsedName<O>) -> Vec<u8> {
+    let mut w = vec![];
+    for l in n.iter() { w.push(l.as_slice().len() as u8); w.extend_from_slice(l.as_slice()); }
+    w
+}
+
+/// old reader: Parser over the whole message, seek, ParsedName::parse
+fn old_name(msg: &[u8], pos: usize) -> Obs {
+    obs(catch(|| {
+        let mut parser = Parser::from_ref(msg);
+        parser.seek(pos).map_err(|_| ())?;
+        let n = ParsedName::parse(&mut parser).map_err(|_| ())?;
+        Ok((old_wire(&n), parser.pos()))
+    }))
+}
+
+/// new reader: contents = msg[12..]; result positions are reported message-relative
+fn new_split(msg: &[u8], pos: usize) -> Obs {
+    obs(catch(|| {
+        let (n, end) = NameBuf::split_message_bytes(&msg[12..], pos - 12).map_err(|_| ())?;
+        Ok((n.as_bytes().to_vec(), end + 12))
+    }))
+}
+fn new_parse(contents: &[u8], start: usize) -> Obs {
+    obs(catch(|| { let n = NameBuf::parse_message_bytes(contents, start).map_err(|_| ())?; Ok((n.as_bytes().to_vec(), 0)) }))
+}
+fn rev_split(msg: &[u8], pos: usize) -> Obs {
+    obs(catch(|| {
+        let (n, end) = RevNameBuf::split_message_bytes(&msg[12..], pos - 12).map_err(|_| ())?;
+        Ok((n.as_bytes().to_vec(), end + 12))
+    }))
+}
+fn rev_parse(contents: &[u8], start: usize) -> Obs {
+    obs(catch(|| { let n = RevNameBuf::parse_message_bytes(contents, start).map_err(|_| ())?; Ok((n.as_bytes().to_vec(), 0)) }))
+}
+
+/// reversed wire (root first, labels last-to-first) -> conventional wire
+fn unreverse(r: &[u8]) -> Option<Vec<u8>> {
+    if r.first() != Some(&0) { return None; }
+    let mut labels: Vec<&[u8]> = vec![];
+    let mut i = 1;
+    while i < r.len() {
+        let l = r[i] as usize;
+        if l == 0 || l > 63 || i + 1 + l > r.len() { return None; }
+        labels.push(&r[i..i + 1 + l]);
+        i += 1 + l;
+    }
+    let mut w = vec![];
+    for l in labels.iter().rev() { w.extend_from_slice(l); }
+    w.push(0);
+    Some(w)
+}
+
+/// The known classes, computed independently of the model: walk as the OLD
+/// reader does; the first pointer that the old rule admits (target < its own
+/// position) but that points into the header (`hdr`) or at/after the start of
+/// the segment it sits in (`own`).
+fn classify(msg: &[u8], pos: usize) -> &'static str {
+    let lim = msg.len();
+    let (mut cur, mut seg, mut nl) = (pos, pos, 0usize);
+    loop {
+        if cur >= lim { return "none"; }
+        let b = msg[cur] as usize;
+        if b <= 63 {
+            if b == 0 || lim - (cur + 1) < b { return "none"; }
+            nl += b + 1;
+            if nl >= 255 { return "none"; }
+            cur += 1 + b;
+        } else if b >= 192 {
+            if cur + 1 >= lim { return "none"; }
+            let t = ((b & 0x3f) << 8) | msg[cur + 1] as usize;
+            if t >= cur { return "none"; }
+            if t < 12 { return "hdr"; }
+            if t >= seg { return "own"; }
+            cur = t; seg = t;
+        } else { return "none"; }
+    }
+}
+
+struct Ctx { out: Out, idx: u64, per_class: std::collections::BTreeMap<String, u64> }
+
+impl Ctx {
+    /// oracle verdict; at most 10 failures per class are written out (the shared
+    /// collector keeps the first 200 lines only), the rest are counted.
+    fn verdict(&mut self, ok: bool, class: &str, case: &str, detail: &str) {
+        if ok { self.out.check(true, class, case, detail); return; }
+        let n = self.per_class.entry(class.to_string()).or_insert(0);
+        *n += 1;
+        if *n <= 10 { self.out.check(false, class, case, detail); } else { self.out.count(&format!("more:{}", class)); }
+    }
+    fn mismatch(&mut self, what: &str, o_ok: bool, n_ok: bool, class: &str, case: &str, detail: &str) {
+        // one accepts, the other rejects
+        let cls = if o_ok && !n_ok && class == "own" { "ptr_into_own_segment".to_string() }
+            else if o_ok && !n_ok && class == "hdr" { "ptr_into_header".to_string() }
+            else if o_ok { format!("accept_reject_mismatch_{}_old_accepts", what) }
+            else { format!("accept_reject_mismatch_{}_new_accepts", what) };
+        self.verdict(false, &cls, case, detail);
+    }
+
+    /// one (message, position): all name readers, T2 lines, oracle
+    fn name_case(&mut self, msg: &[u8], pos: usize, kind: &str, t2_all: bool) {
+        self.idx += 1;
+        if !self.out.wants(self.idx) { return; }
+        assert!(msg.len() >= 12 && pos >= 12);
+        let mh = hex(msg); let ch = hex(&msg[12..]);
+        let case = format!("split {} {}", ch, pos - 12);
+        self.out.begin(&case);
+        let o = old_name(msg, pos);
+        let n = new_split(msg, pos);
+        let class = classify(msg, pos);
+        // T2 (model positions: contents-relative for the new API)
+        let n_rel = match &n { Obs::Ok(w, e) => Obs::Ok(w.clone(), e - 12), x => x.clone() };
+        let nontriv = o.is_ok() || n.is_ok() || msg[12..].iter().any(|b| *b >= 0xc0);
+        self.out.case(&case, &n_rel.show(), nontriv, &format!("{}:split", kind));
+        self.out.case(&format!("old {} {}", mh, pos), &o.show(), nontriv, &format!("{}:old", kind));
+        self.out.case(&format!("class {} {}", mh, pos), class, class != "none", &format!("{}:class", kind));
+        // oracle: C19 as stated
+        let tag = format!("old {} {}", mh, pos);
+        match (&o, &n) {
+            (Obs::Panic, _) => self.verdict(false, "panic_old", &tag, "old name parser panicked"),
+            (_, Obs::Panic) => self.verdict(false, "panic_new", &case, "new name parser panicked"),
+            (Obs::Ok(a, e1), Obs::Ok(b, e2)) => self.verdict(a == b && e1 == e2, "content_mismatch", &tag,
+                &format!("old {} end {} new {} end {}", hex(a), e1, hex(b), e2)),
+            (Obs::Err, Obs::Err) => self.verdict(true, "", "", ""),
+            (a, b) => self.mismatch("name", a.is_ok(), b.is_ok(), class, &tag, &format!("old={} new={} class={}", a.show(), b.show(), class)),
+        }
+        // the new API against itself: RevNameBuf and parse_message_bytes
+        let r = rev_split(msg, pos);
+        let r_rel = match &r { Obs::Ok(w, e) => Obs::Ok(w.clone(), e - 12), x => x.clone() };
+        if t2_all { self.out.case(&format!("rsplit {} {}", ch, pos - 12), &r_rel.show(), nontriv, &format!("{}:rsplit", kind)); }
+        let same = match (&n, &r) {
+            (Obs::Ok(a, e1), Obs::Ok(b, e2)) => unreverse(b).as_ref() == Some(a) && e1 == e2,
+            (Obs::Err, Obs::Err) => true,
+            _ => false,
+        };
+        self.verdict(same, if matches!(r, Obs::Panic) { "panic_new" } else { "new_revname_mismatch" }, &case, &format!("NameBuf {} RevNameBuf {}", n.show(), r.show()));
+        let show = |x: &Obs| match x { Obs::Ok(w, _) => format!("Ok {}", hex(w)), y => y.show() };
+        if let Obs::Ok(w, e) = &n {
+            let c = &msg[12..*e];
+            let p = new_parse(c, pos - 12);
+            // (a later segment may legitimately need octets beyond the end of the first one)
+            self.verdict(!p.is_ok() || p == Obs::Ok(w.clone(), 0), "new_parse_split_mismatch", &case, &format!("parse_message_bytes over [..{}] = {}", e - 12, p.show()));
+            if t2_all {
+                self.out.case(&format!("parse {} {}", hex(c), pos - 12), &show(&p), true, &format!("{}:parse", kind));
+                let rp = rev_parse(c, pos - 12);
+                self.out.case(&format!("rparse {} {}", hex(c), pos - 12), &show(&rp), true, &format!("{}:rparse", kind));
+            }
+        } else if t2_all {
+            let p = new_parse(&msg[12..], pos - 12);
+            self.out.case(&format!("parse {} {}", ch, pos - 12), &show(&p), false, &format!("{}:parse", kind));
+        }
+    }
+
+    /// questions and (untyped) records at a position through both APIs
+    fn item_case(&mut self, msg: &[u8], pos: usize) {
+        self.idx += 1;
+        if !self.out.wants(self.idx) { return; }
+        let mh = hex(msg);
+        let class = classify(msg, pos);
+        // question
+        let tag = format!("question {} {}", mh, pos);
+        self.out.begin(&tag);
+        let oq = flat(catch(|| {
+            let mut p = Parser::from_ref(msg); p.seek(pos).map_err(|_| ())?;
+            let q = OldQuestion::<ParsedName<&[u8]>>::parse(&mut p).map_err(|_| ())?;
+            Ok((old_wire(q.qname()), q.qtype().to_int(), q.qclass().to_int(), p.pos()))
+        }));
+        let nq = flat(catch(|| {
+            let (q, e) = Question::<NameBuf>::split_message_bytes(&msg[12..], pos - 12).map_err(|_| ())?;
+            Ok((q.qname.as_bytes().to_vec(), q.qtype.code.get(), q.qclass.code.get(), e + 12))
+        }));
+        self.out.oracle_case(&tag, oq.is_ok() || nq.is_ok(), "item:question");
+        match (&oq, &nq) {
+            (Err(true), _) => self.verdict(false, "panic_old", &tag, "old Question::parse panicked"),
+            (_, Err(true)) => self.verdict(false, "panic_new", &tag, "new Question::split_message_bytes panicked"),
+            (Ok(a), Ok(b)) => self.verdict(a == b, "content_mismatch", &tag, &format!("old {:?} new {:?}", a, b)),
+            (Err(_), Err(_)) => self.verdict(true, "", "", ""),
+            (a, b) => self.mismatch("question", a.is_ok(), b.is_ok(), class, &tag, &format!("old={:?} new={:?}", a, b)),
+        }
+        // record (header fields + raw RDATA)
+        let tag = format!("record {} {}", mh, pos);
+        self.out.begin(&tag);
+        let or = flat(catch(|| {
+            let mut p = Parser::from_ref(msg); p.seek(pos).map_err(|_| ())?;
+            let r = ParsedRecord::parse(&mut p).map_err(|_| ())?;
+            let end = p.pos(); let rdlen = r.rdlen() as usize;
+            Ok((old_wire(&r.owner()), r.rtype().to_int(), r.class().to_int(), r.ttl().as_secs(), msg[end - rdlen..end].to_vec(), end))
+        }));
+        let nr = flat(catch(|| {
+            let (r, e) = Record::<NameBuf, &UnparsedRecordData>::split_message_bytes(&msg[12..], pos - 12).map_err(|_| ())?;
+            let rd: &[u8] = r.rdata;
+            Ok((r.rname.as_bytes().to_vec(), r.rtype.code.get(), r.rclass.code.get(), r.ttl.value.get(), rd.to_vec(), e + 12))
+        }));
+        self.out.oracle_case(&tag, or.is_ok() || nr.is_ok(), "item:record");
+        match (&or, &nr) {
+            (Err(true), _) => self.verdict(false, "panic_old", &tag, "old ParsedRecord::parse panicked"),
+            (_, Err(true)) => self.verdict(false, "panic_new", &tag, "new Record::split_message_bytes panicked"),
+            (Ok(a), Ok(b)) => self.verdict(a == b, "content_mismatch", &tag, &format!("old {:?} new {:?}", a, b)),
+            (Err(_), Err(_)) => self.verdict(true, "", "", ""),
+            (a, b) => self.mismatch("record", a.is_ok(), b.is_ok(), class, &tag, &format!("old={:?} new={:?}", a.is_ok(), b.is_ok())),
+        }
+    }
+
+    /// whole message: sections by header counts, untyped records
+    fn message_case(&mut self, msg: &[u8]) {
+        self.idx += 1;
+        if !self.out.wants(self.idx) { return; }
+        let tag = format!("message {}", hex(msg));
+        self.out.begin(&tag);
+        type Items = (Vec<(u8, Vec<u8>, u16, u16, u32, Vec<u8>)>, bool);
+        let old: Result<Items, bool> = flat(catch(|| {
+            let m = OldMessage::from_octets(msg).map_err(|_| ())?;
+            let mut items = vec![];
+            for q in m.question() {
+                match q { Ok(q) => items.push((0u8, old_wire(q.qname()), q.qtype().to_int(), q.qclass().to_int(), 0u32, vec![])), Err(_) => return Ok((items, false)) }
+            }
+            let mut sec = match m.answer() { Ok(s) => s, Err(_) => return Ok((items, false)) };
+            let mut sno = 1u8;
+            loop {
+                for r in sec.by_ref() {
+                    match r {
+                        Ok(r) => {
+                            let rd = r.to_record::<domain::base::rdata::UnknownRecordData<&[u8]>>().map_err(|_| ())?.ok_or(())?;
+                            let d: &[u8] = rd.data().data();
+                            items.push((sno, old_wire(&r.owner()), r.rtype().to_int(), r.class().to_int(), r.ttl().as_secs(), d.to_vec()));
+                        }
+                        Err(_) => return Ok((items, false)),
+                    }
+                }
+                match sec.next_section() { Ok(Some(s)) => { sec = s; sno += 1; } Ok(None) => break, Err(_) => return Ok((items, false)) }
+            }
+            Ok((items, true))
+        }));
+        let new: Result<Items, bool> = flat(catch(|| {
+            let m: &Message = <&Message>::parse_bytes(msg).map_err(|_| ())?;
+            let c = &m.contents;
+            let counts = [m.header.counts.questions.get(), m.header.counts.answers.get(), m.header.counts.authorities.get(), m.header.counts.additionals.get()];
+            let mut items = vec![]; let mut off = 0usize;
+            for _ in 0..counts[0] {
+                match Question::<NameBuf>::split_message_bytes(c, off) {
+                    Ok((q, e)) => { off = e; items.push((0u8, q.qname.as_bytes().to_vec(), q.qtype.code.get(), q.qclass.code.get(), 0u32, vec![])); }
+                    Err(_) => return Ok((items, false)),
+                }
+            }
+            for s in 1..4 {
+                for _ in 0..counts[s] {
+                    match Record::<NameBuf, &UnparsedRecordData>::split_message_bytes(c, off) {
+                        Ok((r, e)) => { off = e; let rd: &[u8] = r.rdata; items.push((s as u8, r.rname.as_bytes().to_vec(), r.rtype.code.get(), r.rclass.code.get(), r.ttl.value.get(), rd.to_vec())); }
+                        Err(_) => return Ok((items, false)),
+                    }
+                }
+            }
+            Ok((items, true))
+        }));
+        self.out.oracle_case(&tag, true, "message");
+        match (&old, &new) {
+            (Err(true), _) => self.verdict(false, "panic_old", &tag, "old Message iteration panicked"),
+            (_, Err(true)) => self.verdict(false, "panic_new", &tag, "new message iteration panicked"),
+            (Err(false), Err(false)) => self.verdict(true, "", "", ""),
+            (Ok((a, ca)), Ok((b, cb))) => {
+                let n = a.len().min(b.len());
+                if a[..n] != b[..n] { self.verdict(false, "content_mismatch", &tag, "items read by both differ"); }
+                else if a.len() == b.len() && ca == cb { self.verdict(true, "", "", ""); }
+                else {
+                    // one reader went on where the other stopped
+                    let old_further = a.len() > b.len() || (a.len() == b.len() && *ca);
+                    let known = (12..msg.len()).map(|p| classify(msg, p)).find(|c| *c != "none").unwrap_or("none");
+                    self.mismatch("message", old_further, !old_further, known, &tag, &format!("old complete={} ({} items) new complete={} ({} items)", ca, a.len(), cb, b.len()));
+                }
+            }
+            (a, b) => self.mismatch("message", a.is_ok(), b.is_ok(), "none", &tag, "header"),
+        }
+    }
+}
+
+// ------------------------------------------------------------ generators
+
+fn wire(labels: &[Vec<u8>]) -> Vec<u8> {
     let mut v = vec![];
     for l in labels { v.push(l.len() as u8); v.extend_from_slice(l); }
     v.push(0);
     v
 }
 
-fn main() {
-    std::panic::set_hook(Box::new(|_| {}));
-    let mut m = vec![0u8; 12];
-    m.extend_from_slice(&[3, 1, 0x7a, 0, 0xc0, 0x0d]);
-    println!("own-seg old={:?} new={:?}", catch(|| old_name(&m, 12)), catch(|| new_name(&m, 12)));
-    let mut m = vec![0u8; 12];
-    m.extend_from_slice(&[0xc0, 0x0b]);
-    println!("hdr old={:?} new={:?}", catch(|| old_name(&m, 12)), catch(|| new_name(&m, 12)));
+fn rand_label(rng: &mut Rng) -> Vec<u8> {
+    const POOL: [&[u8]; 12] = [b"a", b"b", b"c", b"x", b"A", b"example", b"EXAMPLE", b"com", b"org", b"www", b"z1", b"\x01a"];
+    if rng.chance(5, 6) { rng.pick(&POOL).to_vec() } else { let n = rng.range(1, 9) as usize; (0..n).map(|_| *rng.pick(b"abcAB\x00\x01\xc0.-")).collect() }
+}
 
-    // compressor: b.c ; a.c ; x.a.b.c
-    let mut buf = vec![0u8; 200];
+fn rand_name(rng: &mut Rng) -> Vec<Vec<u8>> {
+    let n = match rng.below(10) { 0 => 0, 1..=3 => 1, 4..=6 => 2, 7..=8 => 3, _ => rng.range(4, 7) } as usize;
+    (0..n).map(|_| rand_label(rng)).collect()
+}
+
+/// a long name whose wire length is exactly `total` (>= 3) octets incl. root
+fn name_of_len(total: usize, fill: u8) -> Vec<Vec<u8>> {
+    let mut left = total - 1; let mut ls = vec![];
+    while left > 0 {
+        let take = if left > 64 { if left - 64 == 1 { 62 } else { 63 } } else { left - 1 };
+        ls.push(vec![fill; take]); left -= take + 1;
+    }
+    ls
+}
+
+fn header(qd: u16, an: u16, ns: u16, ar: u16) -> Vec<u8> {
+    let mut h = vec![0x12, 0x34, 0x81, 0x80];
+    for c in [qd, an, ns, ar] { h.extend_from_slice(&c.to_be_bytes()); }
+    h
+}
+
+fn put_name(m: &mut Vec<u8>, rng: &mut Rng, name_pos: &mut Vec<usize>) {
+    let here = m.len();
+    let labels = rand_name(rng);
+    let keep = if name_pos.is_empty() || rng.chance(1, 3) { labels.len() } else { rng.below(labels.len() as u64 + 1) as usize };
+    for l in &labels[..keep] { m.push(l.len() as u8); m.extend_from_slice(l); }
+    if keep == labels.len() && (name_pos.is_empty() || rng.chance(1, 2)) { m.push(0); }
+    else {
+        // pointer to an earlier name or into it
+        let base = *rng.pick(&name_pos[..]);
+        let t = if rng.chance(3, 4) { base } else { (base + rng.below(6) as usize).min(here) };
+        m.push(0xc0 | (t >> 8) as u8); m.push(t as u8);
+    }
+    name_pos.push(here);
+}
+
+/// hand-made message with compression: returns bytes and the positions of names
+fn handmade(rng: &mut Rng) -> (Vec<u8>, Vec<usize>) {
+    let nq = rng.range(0, 2) as u16; let na = rng.range(0, 4) as u16;
+    let mut m = header(nq, na, 0, 0);
+    let mut name_pos: Vec<usize> = vec![];
+    for _ in 0..nq { put_name(&mut m, rng, &mut name_pos); m.extend_from_slice(&[0, 1, 0, 1]); }
+    for _ in 0..na {
+        put_name(&mut m, rng, &mut name_pos);
+        let kind = rng.below(3);
+        m.extend_from_slice(&[0, if kind == 0 { 1 } else if kind == 1 { 2 } else { 15 }, 0, 1, 0, 0, 0, 60]);
+        let lenpos = m.len(); m.extend_from_slice(&[0, 0]);
+        match kind { 0 => m.extend_from_slice(&[192, 0, 2, 1]), 1 => put_name(&mut m, rng, &mut name_pos), _ => { m.extend_from_slice(&[0, 10]); put_name(&mut m, rng, &mut name_pos); } }
+        let l = (m.len() - lenpos - 2) as u16; m[lenpos..lenpos + 2].copy_from_slice(&l.to_be_bytes());
+    }
+    (m, name_pos)
+}
+
+/// structure-aware mutation near names
+fn mutate(rng: &mut Rng, m: &mut Vec<u8>, name_pos: &[usize]) {
+    let n = rng.range(1, 3);
+    for _ in 0..n {
+        if m.len() <= 12 { return; }
+        let i = if !name_pos.is_empty() && rng.chance(2, 3) { (*rng.pick(name_pos) + rng.below(8) as usize).min(m.len() - 1) } else { rng.range(0, m.len() as u64 - 1) as usize };
+        match rng.below(9) {
+            0 => m[i] = 0xc0,
+            1 => { m[i] = 0xc0; if i + 1 < m.len() { m[i + 1] = rng.range(0, m.len() as u64 + 2) as u8; } }
+            2 => m[i] = *rng.pick(&[0x40u8, 0x41, 0x7f, 0x80, 0xbf, 0x3f, 0x3e]),
+            3 => m[i] = m[i].wrapping_add(1),
+            4 => m[i] = m[i].wrapping_sub(1),
+            5 => m[i] = 0,
+            6 => { m.truncate(i.max(12)); }
+            7 => { if i + 1 < m.len() { m[i] = 0xc0; m[i + 1] = i as u8; } }          // self pointer
+            _ => { if i + 1 < m.len() { m[i] = 0xc0; m[i + 1] = (i as u8).wrapping_sub(rng.range(1, 6) as u8); } }
+        }
+    }
+}
+
+fn raw_random(rng: &mut Rng) -> Vec<u8> {
+    let n = rng.range(0, 40) as usize;
+    let mut m = header(rng.below(3) as u16, rng.below(3) as u16, 0, 0);
+    if rng.chance(1, 4) { for b in m.iter_mut() { if rng.chance(1, 3) { *b = *rng.pick(&[0u8, 1, 2, 3, 0xc0]); } } }
+    for _ in 0..n {
+        let b = match rng.below(8) { 0 | 1 => 0, 2 | 3 => rng.range(1, 4) as u8, 4 => 0xc0, 5 => rng.range(0, 52) as u8, 6 => *rng.pick(&[0x40u8, 0x80, 0xbf, 0xc1, 0xff, 0x3f]), _ => rng.u8() };
+        m.push(b);
+    }
+    m
+}
+
+/// fixed boundary / regression corpus: (message, position)
+fn corpus() -> Vec<(Vec<u8>, usize)> {
+    let mut v: Vec<(Vec<u8>, usize)> = vec![];
+    let h = || header(0, 0, 0, 0);
+    let mk = |tail: &[u8]| { let mut m = header(0, 0, 0, 0); m.extend_from_slice(tail); m };
+    // DESIGN section 7 #17: pointer back into the name's own first segment
+    v.push((mk(&[3, 1, 0x7a, 0, 0xc0, 0x0d]), 12));
+    v.push((mk(&[1, 0x61, 0xc0, 0x0c]), 12));                  // pointer to its own start (endless a.a.a..., both reject)
+    v.push((mk(&[1, 0x61, 0, 1, 0x62, 0xc0, 0x0c]), 15));      // ordinary backward pointer
+    v.push((mk(&[1, 0x61, 0, 1, 0x62, 0xc0, 0x0f]), 15));      // to the start of its own segment
+    v.push((mk(&[1, 0x61, 0, 0xc0, 0x0c, 0xc0, 0x0f]), 17));   // pointer to pointer
+    v.push((mk(&[1, 0x61, 0, 1, 0x62, 0xc0, 0x0c, 1, 0x63, 0xc0, 0x11]), 19)); // into the middle of an earlier compressed name
+    v.push((mk(&[1, 0x61, 0, 1, 0x62, 0xc0, 0x0c, 1, 0x63, 0xc0, 0x0f]), 19));
+    // pointers into the header
+    v.push((mk(&[0xc0, 0x0b]), 12));
+    v.push((mk(&[0xc0, 0x00]), 12));
+    v.push((mk(&[1, 0x61, 0xc0, 0x04]), 12));
+    { let mut m = header(0, 0, 0, 0); m[10] = 1; m[11] = 0x41; m.extend_from_slice(&[0, 0xc0, 0x0a]); v.push((m, 13)); }
+    // pointer to offset 12 exactly, to itself, forward, past the end
+    v.push((mk(&[0, 0xc0, 0x0c]), 13));
+    v.push((mk(&[0xc0, 0x0c]), 12));
+    v.push((mk(&[0xc0, 0x0e, 0]), 12));
+    v.push((mk(&[0, 0xc0, 0xff]), 13));
+    v.push((mk(&[0, 0xff, 0xff]), 13));
+    // label types 0x40..0xbf, truncated input
+    for t in [0x40u8, 0x41, 0x7f, 0x80, 0xbf] { v.push((mk(&[t, 0]), 12)); v.push((mk(&[1, 0x61, t, 0]), 12)); }
+    v.push((mk(&[]), 12)); v.push((mk(&[1]), 12)); v.push((mk(&[3, 0x61, 0x62]), 12)); v.push((mk(&[0xc0]), 12));
+    v.push((mk(&[1, 0x61, 0xc0]), 12)); v.push((mk(&[0]), 13)); v.push((mk(&[0]), 14)); v.push((mk(&[63]), 12));
+    // root
+    v.push((mk(&[0]), 12)); v.push((mk(&[0, 0]), 12));
+    // length cap: 253 / 254 / 255 / 256 / 257 octets uncompressed
+    for total in [253usize, 254, 255, 256, 257] { let mut m = h(); m.extend_from_slice(&wire(&name_of_len(total, b'x'))); v.push((m, 12)); }
+    // the same totals reached through a pointer: tail first, then a head pointing at it
+    for total in [254usize, 255, 256] {
+        for head in [2usize, 64, 130] {
+            let mut m = h(); let tail = wire(&name_of_len(total - head, b't')); m.extend_from_slice(&tail);
+            let pos = m.len(); let hd = wire(&name_of_len(head + 1, b'h')); m.extend_from_slice(&hd[..hd.len() - 1]);
+            m.extend_from_slice(&[0xc0, 0x0c]); v.push((m, pos));
+        }
+    }
+    // 63/64-octet labels
+    { let mut m = h(); m.push(63); m.extend_from_slice(&[b'l'; 63]); m.push(0); v.push((m, 12)); }
+    { let mut m = h(); m.push(64); m.extend_from_slice(&[b'l'; 64]); m.push(0); v.push((m, 12)); }
+    v
+}
+
+/// large messages around the 14-bit pointer limit
+fn big_corpus() -> Vec<(Vec<u8>, usize)> {
+    let mut v = vec![];
+    for target in [0x3ffeusize, 0x3fff, 0x4000, 0x4001] {
+        let mut m = vec![0u8; 16420]; m[2] = 0x80;
+        for i in 12..m.len() { m[i] = 0x07; }
+        m[target] = 0;
+        m[target - 2] = 1; m[target - 1] = b'q';
+        let pos = m.len();
+        m.extend_from_slice(&[1, b'p', 0xc0 | ((target >> 8) & 0x3f) as u8, target as u8]);
+        v.push((m.clone(), pos));
+        let t2 = target - 2;
+        let l = m.len(); m[l - 2] = 0xc0 | ((t2 >> 8) & 0x3f) as u8; m[l - 1] = t2 as u8;
+        v.push((m, pos));
+    }
+    { let mut m = vec![0u8; 16400]; m[0x3fff] = 0; let pos = m.len(); m.extend_from_slice(&[0xff, 0xff]); v.push((m, pos)); }
+    v
+}
+
+// ------------------------------------------------------------ build scripts
+
+#[derive(Clone, Debug)]
+enum Rd { A([u8; 4]), Raw(Vec<u8>), Ns(Vec<Vec<u8>>), CName(Vec<Vec<u8>>), Mx(u16, Vec<Vec<u8>>) }
+#[derive(Clone, Debug)]
+enum Op { Q(Vec<Vec<u8>>, u16), R(u8, Vec<Vec<u8>>, u32, Rd) }
+
+const RAW_TYPE: u16 = 65280;
+
+/// canonical item: (section, owner wire lower-cased, type, ttl, rdata canonical)
+type Item = (u8, Vec<u8>, u16, u32, Vec<u8>);
+
+fn lower(w: &[u8]) -> Vec<u8> { w.iter().map(|b| b.to_ascii_lowercase()).collect() }
+
+fn expected(ops: &[Op]) -> Vec<Item> {
+    ops.iter().map(|op| match op {
+        Op::Q(n, t) => (0u8, lower(&wire(n)), *t, 0u32, vec![]),
+        Op::R(s, n, ttl, rd) => {
+            let (t, d) = match rd {
+                Rd::A(o) => (1u16, o.to_vec()), Rd::Raw(b) => (RAW_TYPE, b.clone()),
+                Rd::Ns(x) => (2, lower(&wire(x))), Rd::CName(x) => (5, lower(&wire(x))),
+                Rd::Mx(p, x) => { let mut d = p.to_be_bytes().to_vec(); d.extend(lower(&wire(x))); (15, d) }
+            };
+            (*s, lower(&wire(n)), t, *ttl, d)
+        }
+    }).collect()
+}
+
+fn oname(labels: &[Vec<u8>]) -> OldName<Vec<u8>> { OldName::from_octets(wire(labels)).unwrap() }
+
+fn build_old<T>(target: T, ops: &[Op]) -> Result<Vec<u8>, String>
+where T: domain::base::wire::Composer + AsRef<[u8]> + AsMut<[u8]> + domain::dep::octseq::Truncate {
+    use domain::rdata::{Cname as OCname, Mx as OMx, Ns as ONs, A as OA};
+    let mut qb = OldBuilder::from_target(target).map_err(|_| "from_target".to_string())?.question();
+    for op in ops { if let Op::Q(n, t) = op { qb.push((oname(n), Rtype::from_int(*t), Class::IN)).map_err(|e| format!("push q {}", e))?; } }
+    macro_rules! sect { ($b:expr, $s:expr) => {{
+        for op in ops { if let Op::R(s, n, ttl, rd) = op { if *s == $s {
+            let (o, t) = (oname(n), Ttl::from_secs(*ttl));
+            match rd {
+                Rd::A(x) => $b.push((o, Class::IN, t, OA::from_octets(x[0], x[1], x[2], x[3]))),
+                Rd::Raw(x) => $b.push((o, Class::IN, t, domain::base::rdata::UnknownRecordData::from_octets(Rtype::from_int(RAW_TYPE), x.clone()).unwrap())),
+                Rd::Ns(x) => $b.push((o, Class::IN, t, ONs::new(oname(x)))),
+                Rd::CName(x) => $b.push((o, Class::IN, t, OCname::new(oname(x)))),
+                Rd::Mx(p, x) => $b.push((o, Class::IN, t, OMx::new(*p, oname(x)))),
+            }.map_err(|e| format!("push r {}", e))?;
+        } } }
+    }}; }
+    let mut ab = qb.answer(); sect!(ab, 1u8);
+    let mut ub = ab.authority(); sect!(ub, 2u8);
+    let mut db = ub.additional(); sect!(db, 3u8);
+    Ok(db.finish().as_ref().to_vec())
+}
+
+/// new builder; returns (bytes, per-op success)
+fn build_new(ops: &[Op], bufsize: usize) -> (Vec<u8>, Vec<bool>) {
+    let mut buffer = vec![0u8; bufsize];
     let mut comp = NameCompressor::default();
-    let names: Vec<Vec<u8>> = vec![wire(&[b"b", b"c"]), wire(&[b"a", b"c"]), wire(&[b"x", b"a", b"b", b"c"])];
-    let mut off = 0usize;
-    let mut starts = vec![];
-    for w in &names {
-        let n: &Name = <&Name>::parse_bytes(w).unwrap();
-        starts.push(off);
-        off = n.build_in_message(&mut buf[12..], off, &mut comp).unwrap();
+    let mut b = MessageBuilder::new(&mut buffer, &mut comp, U16::new(0x1234), HeaderFlags::default());
+    let mut okv = vec![];
+    for op in ops {
+        let ok = match op {
+            Op::Q(n, t) => {
+                let w = wire(n); let name: &Name = <&Name>::parse_bytes(&w).unwrap();
+                b.push_question(&Question::<&Name> { qname: name, qtype: QType { code: U16::new(*t) }, qclass: QClass::IN }).is_ok()
+            }
+            Op::R(s, n, ttl, rd) => {
+                let w = wire(n); let name: &Name = <&Name>::parse_bytes(&w).unwrap();
+                let (xw, raw): (Vec<u8>, Vec<u8>) = match rd { Rd::Ns(x) | Rd::CName(x) | Rd::Mx(_, x) => (wire(x), vec![]), Rd::Raw(r) => (vec![0], r.clone()), Rd::A(_) => (vec![0], vec![]) };
+                let xn: &Name = <&Name>::parse_bytes(&xw).unwrap();
+                macro_rules! push { ($rec:expr) => { match s { 1 => b.push_answer($rec).is_ok(), 2 => b.push_authority($rec).is_ok(), _ => b.push_additional($rec).is_ok() } }; }
+                let ttl = TTL::from(*ttl);
+                match rd {
+                    Rd::Raw(_) => {
+                        let rdata: &UnparsedRecordData = unsafe { UnparsedRecordData::new_unchecked(&raw) };
+                        push!(&Record::<&Name, &UnparsedRecordData> { rname: name, rtype: RType { code: U16::new(RAW_TYPE) }, rclass: RClass::IN, ttl, rdata })
+                    }
+                    Rd::A(o) => push!(&Record::<&Name, RecordData<'_, &Name>> { rname: name, rtype: RType::A, rclass: RClass::IN, ttl, rdata: RecordData::A(A { octets: *o }) }),
+                    Rd::Ns(_) => push!(&Record::<&Name, RecordData<'_, &Name>> { rname: name, rtype: RType::NS, rclass: RClass::IN, ttl, rdata: RecordData::Ns(Ns { server: xn }) }),
+                    Rd::CName(_) => push!(&Record::<&Name, RecordData<'_, &Name>> { rname: name, rtype: RType::CNAME, rclass: RClass::IN, ttl, rdata: RecordData::CName(CName { name: xn }) }),
+                    Rd::Mx(p, _) => push!(&Record::<&Name, RecordData<'_, &Name>> { rname: name, rtype: RType::MX, rclass: RClass::IN, ttl, rdata: RecordData::Mx(Mx { preference: U16::new(*p), exchange: xn }) }),
+                }
+            }
+        };
+        okv.push(ok);
     }
-    println!("contents {}", hex(&buf[12..12 + off]));
-    for (i, s) in starts.iter().enumerate() {
-        println!("name {} intended {} old={:?} new={:?}", i, hex(&names[i]), catch(|| old_name(&buf[..12 + off], 12 + s)), catch(|| new_name(&buf[..12 + off], 12 + s)));
+    let m = b.finish();
+    let mut bytes = m.header.as_bytes().to_vec();
+    bytes.extend_from_slice(&m.contents);
+    (bytes, okv)
+}
+
+fn read_old(msg: &[u8]) -> Result<Vec<Item>, String> {
+    use domain::rdata::{Cname as OCname, Mx as OMx, Ns as ONs};
+    let m = OldMessage::from_octets(msg).map_err(|_| "short".to_string())?;
+    let mut items: Vec<Item> = vec![];
+    for q in m.question() { let q = q.map_err(|e| format!("question: {}", e))?; items.push((0, lower(&old_wire(q.qname())), q.qtype().to_int(), 0, vec![])); }
+    let mut sec = m.answer().map_err(|e| format!("answer(): {}", e))?;
+    let mut sno = 1u8;
+    loop {
+        for r in sec.by_ref() {
+            let r = r.map_err(|e| format!("record: {}", e))?;
+            let t = r.rtype().to_int();
+            let d = match t {
+                2 => lower(&old_wire(r.to_record::<ONs<ParsedName<&[u8]>>>().map_err(|e| format!("ns: {}", e))?.ok_or("ns none")?.data().nsdname())),
+                5 => lower(&old_wire(r.to_record::<OCname<ParsedName<&[u8]>>>().map_err(|e| format!("cname: {}", e))?.ok_or("cname none")?.data().cname())),
+                15 => { let x = r.to_record::<OMx<ParsedName<&[u8]>>>().map_err(|e| format!("mx: {}", e))?.ok_or("mx none")?; let mut d = x.data().preference().to_be_bytes().to_vec(); d.extend(lower(&old_wire(x.data().exchange()))); d }
+                _ => { let x = r.to_record::<domain::base::rdata::UnknownRecordData<&[u8]>>().map_err(|e| format!("raw: {}", e))?.ok_or("raw none")?; let d: &[u8] = x.data().data(); d.to_vec() }
+            };
+            items.push((sno, lower(&old_wire(&r.owner())), t, r.ttl().as_secs(), d));
+        }
+        match sec.next_section().map_err(|e| format!("next_section: {}", e))? { Some(s) => { sec = s; sno += 1; } None => break }
+    }
+    Ok(items)
+}
+
+fn read_new(msg: &[u8]) -> Result<Vec<Item>, String> {
+    let mut items: Vec<Item> = vec![];
+    let p = MessageParser::new(msg).map_err(|_| "short".to_string())?;
+    for it in p {
+        let it = it.map_err(|_| format!("item {} fails to parse", items.len()))?;
+        let (s, r) = match it {
+            MessageItem::Question(q) => { items.push((0, lower(&unreverse(q.qname.as_bytes()).ok_or("revname")?), q.qtype.code.get(), 0, vec![])); continue; }
+            MessageItem::Answer(r) => (1u8, r), MessageItem::Authority(r) => (2, r), MessageItem::Additional(r) => (3, r),
+            MessageItem::Edns(_) => return Err("unexpected EDNS item".into()),
+        };
+        let d = match &r.rdata {
+            RecordData::A(a) => a.octets.to_vec(),
+            RecordData::Ns(x) => lower(x.server.as_bytes()),
+            RecordData::CName(x) => lower(x.name.as_bytes()),
+            RecordData::Mx(x) => { let mut d = x.preference.get().to_be_bytes().to_vec(); d.extend(lower(x.exchange.as_bytes())); d }
+            RecordData::Unknown(_, u) => { let b: &[u8] = u.as_bytes(); b.to_vec() }
+            _ => return Err("unexpected rdata variant".into()),
+        };
+        items.push((s, lower(&unreverse(r.rname.as_bytes()).ok_or("revname")?), r.rtype.code.get(), r.ttl.value.get(), d));
+    }
+    Ok(items)
+}
+
+fn rand_small(rng: &mut Rng) -> Vec<u8> { rng.pick(&[&b"a"[..], b"b", b"c", b"x", b"B", b"example", b"com", b"ab", b"\x01a", b"a\x01"]).to_vec() }
+
+fn script_name(rng: &mut Rng, pool: &mut Vec<Vec<Vec<u8>>>) -> Vec<Vec<u8>> {
+    // names sharing suffixes with earlier ones (and with each other's middles)
+    let n = if !pool.is_empty() && rng.chance(3, 5) {
+        let base = rng.pick(&pool[..]).clone();
+        match rng.below(5) {
+            0 => base,
+            1 => { let k = rng.below(base.len() as u64 + 1) as usize; let mut v = vec![rand_small(rng)]; v.extend_from_slice(&base[k..]); v }
+            2 => { let mut v = vec![rand_small(rng), rand_small(rng)]; v.extend_from_slice(&base); v }
+            3 => { let mut v = base.clone(); if !v.is_empty() { let i = rng.below(v.len() as u64) as usize; v[i] = rand_small(rng); } v }
+            _ => { let mut v = base.clone(); if v.len() > 1 { let i = rng.below(v.len() as u64) as usize; v.remove(i); } v }
+        }
+    } else { (0..rng.range(0, 4)).map(|_| rand_small(rng)).collect() };
+    let n: Vec<Vec<u8>> = if wire(&n).len() > 255 { vec![] } else { n };
+    pool.push(n.clone());
+    n
+}
+
+fn gen_script(rng: &mut Rng, pad_to: Option<usize>) -> Vec<Op> {
+    let mut pool = vec![]; let mut ops = vec![];
+    for _ in 0..rng.below(3) { ops.push(Op::Q(script_name(rng, &mut pool), 1)); }
+    if let Some(target) = pad_to {
+        let mut size = 12 + ops.iter().map(|o| if let Op::Q(n, _) = o { wire(n).len() + 4 } else { 0 }).sum::<usize>();
+        while size + 11 < target {
+            let l = (target - size - 11).min(4000);
+            ops.push(Op::R(1, vec![], 1, Rd::Raw(vec![0x07; l]))); size += 11 + l;
+        }
+    }
+    let mut sec = 1u8;
+    for _ in 0..rng.range(1, 8) {
+        if rng.chance(1, 5) && sec < 3 { sec += 1; }
+        let owner = script_name(rng, &mut pool);
+        let rd = match rng.below(6) { 0 => Rd::A([192, 0, 2, rng.u8()]), 1 => { let k = rng.below(12) as usize; Rd::Raw(rng.bytes(k)) }, 2 | 3 => Rd::Ns(script_name(rng, &mut pool)), 4 => Rd::CName(script_name(rng, &mut pool)), _ => Rd::Mx(rng.u16(), script_name(rng, &mut pool)) };
+        ops.push(Op::R(sec, owner, rng.below(100000) as u32, rd));
+    }
+    ops
+}
+
+fn script_str(ops: &[Op]) -> String {
+    let nm = |n: &Vec<Vec<u8>>| hex(&wire(n));
+    ops.iter().map(|o| match o {
+        Op::Q(n, t) => format!("Q:{}:{}", nm(n), t),
+        Op::R(s, n, ttl, rd) => format!("R{}:{}:{}:{}", s, nm(n), ttl, match rd { Rd::A(o) => format!("A{}", hex(o)), Rd::Raw(b) => format!("RAW#{}", b.len()), Rd::Ns(x) => format!("NS{}", nm(x)), Rd::CName(x) => format!("CNAME{}", nm(x)), Rd::Mx(p, x) => format!("MX{}/{}", p, nm(x)) }),
+    }).collect::<Vec<_>>().join(",")
+}
+
+fn first_diff(a: &[Item], b: &[Item]) -> String {
+    for i in 0..a.len().max(b.len()) {
+        if a.get(i) != b.get(i) {
+            let f = |x: Option<&Item>| x.map(|x| format!("(sec {} owner {} type {} ttl {} rdata {})", x.0, hex(&x.1), x.2, x.3, if x.4.len() > 80 { format!("#{}", x.4.len()) } else { hex(&x.4) })).unwrap_or("-".into());
+            return format!("item {}: expected {} read {}", i, f(a.get(i)), f(b.get(i)));
+        }
+    }
+    "-".into()
+}
+
+fn run_script(cx: &mut Ctx, ops: &[Op], kind: &str, bufsize: usize, with_old: bool) {
+    cx.idx += 1;
+    if !cx.out.wants(cx.idx) { return; }
+    let tag = format!("script buf={} {}", bufsize, script_str(ops));
+    cx.out.begin(&tag);
+    cx.out.oracle_case(&tag, true, kind);
+    let want = expected(ops);
+    let mut outputs: Vec<(&str, Vec<u8>, Vec<Item>)> = vec![];
+    if with_old {
+        for (nm, r) in [("old_static", catch(|| build_old(StaticCompressor::new(Vec::new()), ops))),
+                        ("old_tree", catch(|| build_old(TreeCompressor::new(Vec::new()), ops))),
+                        ("old_hash", catch(|| build_old(HashCompressor::new(Vec::new()), ops)))] {
+            match r {
+                Ok(Ok(b)) => outputs.push((nm, b, want.clone())),
+                Ok(Err(e)) => cx.verdict(false, "old_builder_rejects_script", &tag, &format!("{}: {}", nm, e)),
+                Err(p) => cx.verdict(false, "panic_old_builder", &tag, &format!("{}: {}", nm, p)),
+            }
+        }
+    }
+    let opsv = ops.to_vec();
+    match catch(move || build_new(&opsv, bufsize)) {
+        Ok((b, okv)) => {
+            let w: Vec<Item> = want.iter().zip(okv.iter()).filter(|(_, ok)| **ok).map(|(i, _)| i.clone()).collect();
+            if with_old { cx.verdict(okv.iter().all(|x| *x), "new_builder_rejects_script", &tag, &format!("{:?}", okv)); }
+            outputs.push(("new", b, w));
+        }
+        Err(p) => {
+            let cls = if p.contains("overflow") { "new_compressor_pointer_overflow" } else if p.contains("did not correspond") { "new_builder_stale_compressor_panic" } else { "panic_new_builder" };
+            cx.verdict(false, cls, &tag, &p);
+        }
+    }
+    for (nm, bytes, want) in &outputs {
+        let is_new = *nm == "new";
+        let b1 = bytes.clone(); let b2 = bytes.clone();
+        let ro = catch(move || read_old(&b1)); let rn = catch(move || read_new(&b2));
+        for (reader, r) in [("old", ro), ("new", rn)] {
+            let ctx = format!("built by {} ({} octets) read by {}", nm, bytes.len(), reader);
+            let dump = if bytes.len() < 400 { hex(bytes) } else { "".into() };
+            match r {
+                Err(p) => cx.verdict(false, if reader == "old" { "panic_old" } else { "panic_new" }, &tag, &format!("{}: {}", ctx, p)),
+                Ok(Err(e)) => cx.verdict(false, if is_new { "new_compressor_bad_pointer" } else { "built_old_unreadable" }, &tag, &format!("{}: {} :: {}", ctx, e, dump)),
+                Ok(Ok(items)) => {
+                    let ok = &items == want;
+                    let cls = if is_new { "new_compressor_bad_pointer".to_string() } else { format!("built_old_read_{}_mismatch", reader) };
+                    cx.verdict(ok, &cls, &tag, &format!("{}: {} :: {}", ctx, first_diff(want, &items), dump));
+                }
+            }
+        }
+    }
+}
+
+// ------------------------------------------------------------ main
+
+fn main() {
+    let a = args();
+    let out = Out::new(&a, "C19", 20);
+    let mut cx = Ctx { out, idx: 0, per_class: Default::default() };
+    let mut rng = Rng::new(a.seed);
+    let scale = a.scale.max(1) as usize * if a.thorough { 25 } else { 1 };
+
+    // (1) corpus
+    for (m, p) in corpus() { cx.name_case(&m, p, "corpus", true); cx.item_case(&m, p); }
+    for (m, p) in big_corpus() { cx.name_case(&m, p, "big", false); }
+
+    // (2) hand-made compressed messages, all name positions and some others
+    for _ in 0..500 * scale {
+        let (m, np) = handmade(&mut rng);
+        for p in &np { let all = rng.chance(1, 4); cx.name_case(&m, *p, "handmade", all); }
+        if rng.chance(1, 3) { let p = rng.range(12, m.len() as u64) as usize; cx.name_case(&m, p, "handmade-off", false); }
+        if rng.chance(1, 2) { let p = if np.is_empty() { 12 } else { *rng.pick(&np[..]) }; cx.item_case(&m, p); }
+        cx.message_case(&m);
+    }
+    // (3) structure-aware mutations
+    for _ in 0..900 * scale {
+        let (mut m, np) = handmade(&mut rng);
+        mutate(&mut rng, &mut m, &np);
+        if m.len() < 12 { continue; }
+        let k = rng.range(1, 4);
+        for _ in 0..k {
+            let p = if !np.is_empty() && rng.chance(2, 3) { (*rng.pick(&np[..])).min(m.len()) } else { rng.range(12, m.len() as u64 + 1) as usize };
+            let all = rng.chance(1, 6);
+            cx.name_case(&m, p.max(12), "mutated", all);
+            if rng.chance(1, 3) { cx.item_case(&m, p.max(12)); }
+        }
+        cx.message_case(&m);
+    }
+    // (4) raw random, every offset
+    for _ in 0..350 * scale {
+        let m = raw_random(&mut rng);
+        for p in 12..=m.len().min(12 + 14) { cx.name_case(&m, p, "random", false); }
+        cx.item_case(&m, 12);
+        cx.message_case(&m);
+    }
+    // (5) messages built by both builders, every offset as a name position
+    for _ in 0..60 * scale {
+        let ops = gen_script(&mut rng, None);
+        let opsv = ops.clone();
+        if let Ok((b, _)) = catch(move || build_new(&opsv, 2000)) {
+            if b.len() <= 300 { for p in 12..b.len() { cx.name_case(&b, p, "built-new", false); } cx.message_case(&b); }
+        }
+        if let Ok(Ok(b)) = catch(|| build_old(TreeCompressor::new(Vec::new()), &ops)) {
+            if b.len() <= 300 { for p in (12..b.len()).step_by(2) { cx.name_case(&b, p, "built-old", false); } cx.message_case(&b); }
+        }
     }
 
-    // truncated push then another push
-    let r = catch(|| {
-        let mut buffer = [0u8; 22];
-        let mut compressor = NameCompressor::default();
-        let mut b = MessageBuilder::new(&mut buffer, &mut compressor, U16::new(0), HeaderFlags::default());
-        let q1 = Question::<RevNameBuf> { qname: "abc.de.".parse().unwrap(), qtype: QType::A, qclass: QClass::IN };
-        let r1 = b.push_question(&q1).is_ok();
-        let q2 = Question::<RevNameBuf> { qname: "de.".parse().unwrap(), qtype: QType::A, qclass: QClass::IN };
-        let r2 = b.push_question(&q2).is_ok();
-        let nb: NameBuf = "de.".parse().unwrap();
-        let q3 = Question::<&Name> { qname: &*nb, qtype: QType::A, qclass: QClass::IN };
-        let r3 = b.push_question(&q3).is_ok();
-        format!("{} {} {} {}", r1, r2, r3, hex(&b.message().contents))
-    });
-    println!("trunc-then-push {:?}", r);
-    for base in [16350usize, 16360, 16365, 16370, 16372, 16380, 16383, 16384] {
-        let r = catch(move || {
-            let mut buf = vec![0u8; 17000];
-            let mut comp = NameCompressor::default();
-            let a = wire(&[b"a", b"example"]); let b2 = wire(&[b"b", b"example"]);
-            let na: &Name = <&Name>::parse_bytes(&a).unwrap();
-            let nb: &Name = <&Name>::parse_bytes(&b2).unwrap();
-            let o1 = na.build_in_message(&mut buf[12..], base, &mut comp).unwrap();
-            let o2 = nb.build_in_message(&mut buf[12..], o1, &mut comp).unwrap();
-            format!("second name bytes {} old={:?} new={:?}", hex(&buf[12 + o1..12 + o2]), old_name(&buf[..12 + o2], 12 + o1), new_name(&buf[..12 + o2], 12 + o1))
-        });
-        println!("base {} -> {:?}", base, r);
+    // (6) build scripts: fixed regressions first
+    let l = |s: &[&str]| -> Vec<Vec<u8>> { s.iter().map(|x| x.as_bytes().to_vec()).collect() };
+    // the parent-attachment defect: b.c, a.c, x.a.b.c
+    run_script(&mut cx, &[Op::Q(l(&["b", "c"]), 1), Op::R(1, l(&["a", "c"]), 60, Rd::A([1, 2, 3, 4])), Op::R(1, l(&["x", "a", "b", "c"]), 60, Rd::A([1, 2, 3, 4]))], "script:regress", 600, true);
+    run_script(&mut cx, &[Op::R(1, l(&["b", "c"]), 60, Rd::Ns(l(&["a", "c"]))), Op::R(1, l(&["x", "a", "b", "c"]), 60, Rd::CName(l(&["y", "a", "c"])))], "script:regress", 600, true);
+    // pointer arithmetic at the 16 KiB boundary
+    for base in [16340usize, 16360, 16372, 16380, 16384, 16395, 16400] {
+        let mut ops = vec![];
+        let mut size = 12; while size + 11 < base { let k = (base - size - 11).min(4000); ops.push(Op::R(1, vec![], 1, Rd::Raw(vec![7; k]))); size += 11 + k; }
+        ops.push(Op::R(1, l(&["a", "example"]), 60, Rd::A([1, 1, 1, 1])));
+        ops.push(Op::R(1, l(&["b", "example"]), 60, Rd::Ns(l(&["c", "a", "example"]))));
+        ops.push(Op::R(1, l(&["a", "example"]), 60, Rd::A([1, 1, 1, 2])));
+        run_script(&mut cx, &ops, "script:boundary", 20000, true);
     }
-    let _ = (Rng::new(1), QClass::IN);
+    // a push that does not fit, followed by pushes that do (new builder only)
+    run_script(&mut cx, &[Op::Q(l(&["abc", "de"]), 1), Op::Q(l(&["de"]), 1)], "script:truncated", 22, false);
+    run_script(&mut cx, &[Op::R(1, l(&["a", "de"]), 1, Rd::Raw(vec![1; 40])), Op::R(1, l(&["b", "de"]), 1, Rd::A([1, 2, 3, 4])), Op::R(1, l(&["c", "b", "de"]), 1, Rd::A([1, 2, 3, 4]))], "script:truncated", 12 + 45, false);
+    for _ in 0..500 * scale {
+        let ops = gen_script(&mut rng, None);
+        run_script(&mut cx, &ops, "script:small", 4000, true);
+    }
+    for _ in 0..40 * scale {
+        let target = rng.range(16300, 16420) as usize;
+        let ops = gen_script(&mut rng, Some(target));
+        run_script(&mut cx, &ops, "script:16k", 24000, true);
+    }
+    for _ in 0..150 * scale {
+        let ops = gen_script(&mut rng, None);
+        let bufsize = 12 + rng.range(5, 90) as usize;
+        run_script(&mut cx, &ops, "script:tight", bufsize, false);
+    }
+    cx.out.finish(&[]);
 }
